@@ -193,6 +193,19 @@ def plan_shared(cases: Cases, behs: list, quick: bool, rnd: random.Random) -> li
     return hosts
 
 
+def plan_samepin(cases: Cases, behs: list, quick: bool) -> None:
+    """Two Button objects on one pin: both see the same signal (also signals that start pressed)."""
+    key = cases.shape("button/samepin", FI.button_shape("samepin"))
+    meta = cases.shapes[key]
+    sigs = sorted({tuple(b["sig"]) for b in behs if 3 <= len(b["sig"]) <= 7}, key=lambda t: (len(t), t))
+    for n, sg in enumerate(sigs[: (40 if quick else 600)]):
+        sg = list(sg)
+        passes, inputs = FI.button_inputs(meta, [sg, sg])
+        devs = [{"comp": "button", "id": f"fw-samepin-{n}-b{bt['i']}", "i": bt["i"], "pin": 7, "decl": "setup", "handler": True,
+                 "hc": _host_clicks(sg), "nth": bt["nth"], "of": 2} for bt in meta["buttons"]]
+        cases.add(key, passes, inputs, devs, {"sigs": [sg, sg]})
+
+
 def plan_probes(cases: Cases) -> None:
     """Probe stratum: minimal stimuli that meet exactly one known trigger each (run on every invocation)."""
     key = cases.shape("button/xhandler", FI.button_shape("xhandler"))
@@ -271,7 +284,7 @@ def plan_us(cases: Cases, behs: list, quick: bool, rnd: random.Random) -> None:
 def project(dev: dict, events: list, inputs: str) -> dict:
     if dev["comp"] == "button":
         return {"id": dev["id"], "side": "fw", "handler": dev["handler"], "decl": dev["decl"],
-                "ev": FI.project_button(events, dev["i"], dev["pin"], dev["hc"])}
+                "ev": FI.project_button(events, dev["i"], dev["pin"], dev["hc"], dev.get("nth", 0), dev.get("of", 1))}
     if dev["comp"] == "pot":
         return {"id": dev["id"], "pin": dev["pin"], "ev": FI.project_pot(events, dev["i"])}
     if dev["comp"] == "shared":
@@ -426,6 +439,7 @@ def check(run) -> None:
         plan_button(cases, uniform, free, quick, rnd)
         plan_probes(cases)
         shared_hosts = plan_shared(cases, uniform + free, quick, rnd)
+        plan_samepin(cases, uniform + free, quick)
         plan_pot(cases, pots, quick, rnd)
         plan_us(cases, us + walks, quick, rnd)
         traces, where = execute(cases, run)
